@@ -22,6 +22,8 @@ import (
 	"errors"
 	"fmt"
 	"os"
+	"path/filepath"
+	"strings"
 	"sync"
 	"sync/atomic"
 	"testing"
@@ -32,6 +34,7 @@ import (
 	"github.com/celestiaorg/celestia-node/internal/verifhook"
 	vk "github.com/celestiaorg/celestia-node/internal/verifkit"
 	"github.com/celestiaorg/celestia-node/share/eds"
+	"github.com/celestiaorg/celestia-node/share/shwap"
 )
 
 const c08WitnessWait = 250 * time.Millisecond
@@ -316,6 +319,138 @@ func TestVerifC08_WitnessLazyQ4(t *testing.T) {
 		}
 		if cerr := acc.Close(); cerr != nil {
 			t.Fatalf("C08: Close of the held accessor: %v", cerr)
+		}
+	})
+}
+
+// TestVerifC08_WitnessRemoveQ4Race places a cached lookup with a parity-quadrant read exactly
+// between RemoveQ4's cache drop and its removal of the Q4 file (observation point
+// store.removeQ4:cache-dropped). History: PutODSQ4(h) < { RemoveQ4(h) || cached Get(h)+read }.
+// Whatever the order, once both returned and the reader closed, the parity file is gone and no
+// descriptor of it may stay open (the files opened on behalf of readers are released), the block
+// stays fully readable, and after removing the block nothing of it is left.
+func TestVerifC08_WitnessRemoveQ4Race(t *testing.T) {
+	defer vk.Flush()
+	defer verifhook.Set(nil)
+	rapid.Check(t, func(t *rapid.T) {
+		defer verifhook.Set(nil)
+		recent := rapid.IntRange(0, 2).Draw(t, "recent")
+		extra := rapid.IntRange(1, 3).Draw(t, "extra")
+		sq := vk.GenSquare(t, "sq", vk.SquareOpts{ODS: []int{1, 2, 4, 8}, MaxRuns: 3})
+		height := rapid.Uint64Range(1, 3000).Draw(t, "height")
+		warm := rapid.Bool().Draw(t, "warm")
+		hold := rapid.Bool().Draw(t, "holdAcrossRemove") // the reader closes only after RemoveQ4 returned
+		desc := fmt.Sprintf("rmq4race recent=%d extra=%d h=%d warm=%v hold=%v [%s]", recent, extra, height, warm, hold, sq.Desc())
+		vk.Record(desc, []string{"witness=rmq4race", fmt.Sprintf("hold=%v", hold)}, true, nil)
+
+		dir, err := os.MkdirTemp("", "c08-q4-")
+		if err != nil {
+			t.Fatalf("VERIF-INFRA: %v", err)
+		}
+		defer os.RemoveAll(dir)
+		if rdir, err := filepath.EvalSymlinks(dir); err == nil {
+			dir = rdir
+		}
+		st, err := NewStore(&Parameters{RecentBlocksCacheSize: recent}, dir)
+		if err != nil {
+			t.Fatalf("VERIF-INFRA: %v", err)
+		}
+		cs, err := st.WithCache("c08q", extra)
+		if err != nil {
+			t.Fatalf("VERIF-INFRA: %v", err)
+		}
+		ctx := context.Background()
+		if err := st.PutODSQ4(ctx, sq.Roots, height, sq.EDS); err != nil {
+			t.Fatalf("C08: witness set-up: put failed: %v", err)
+		}
+		if warm {
+			acc, err := cs.GetByHeight(ctx, height)
+			if err != nil {
+				t.Fatalf("C08: witness set-up: cached GetByHeight(%d): %v", height, err)
+			}
+			_ = acc.Close()
+		}
+		w := sq.Width()
+		var fired atomic.Bool
+		var racerErr, readErr error
+		raced := make(chan struct{})
+		release := make(chan struct{})
+		verifhook.Set(func(name string) {
+			if name != "store.removeQ4:cache-dropped" || !fired.CompareAndSwap(false, true) {
+				return
+			}
+			go func() {
+				defer close(raced)
+				acc, err := cs.GetByHeight(ctx, height)
+				if err != nil {
+					racerErr = err
+					return
+				}
+				// a cell of the parity quadrant: served from the Q4 file when it is there
+				smpl, err := acc.Sample(ctx, shwap.SampleCoords{Row: w - 1, Col: w - 1})
+				if err != nil {
+					readErr = fmt.Errorf("Sample(%d,%d): %v", w-1, w-1, err)
+				} else if string(smpl.ToBytes()) != string(sq.RefShare(w-1, w-1)) {
+					readErr = fmt.Errorf("Sample(%d,%d): not the committed share", w-1, w-1)
+				}
+				if hold {
+					<-release
+				}
+				if cerr := acc.Close(); cerr != nil && readErr == nil {
+					readErr = fmt.Errorf("Close: %v", cerr)
+				}
+			}()
+			select {
+			case <-raced:
+			case <-time.After(c08WitnessWait):
+			}
+		})
+		rmErr := st.RemoveQ4(ctx, height, sq.Roots.Hash())
+		verifhook.Set(nil)
+		close(release)
+		if !fired.Load() {
+			t.Fatalf("VERIF-INFRA: observation point store.removeQ4:cache-dropped was not reached by RemoveQ4")
+		}
+		select {
+		case <-raced:
+		case <-time.After(90 * time.Second):
+			t.Fatalf("C08: progress: the cached lookup issued during RemoveQ4 did not return within 90 s after RemoveQ4 returned")
+		}
+		if rmErr != nil {
+			t.Fatalf("C08: RemoveQ4(%d) with a concurrent cached lookup: expected nil, observed %v", height, rmErr)
+		}
+		if racerErr != nil {
+			t.Fatalf("C08: cached GetByHeight(%d) issued during RemoveQ4: expected the block (RemoveQ4 keeps it), observed %v", height, racerErr)
+		}
+		if readErr != nil {
+			t.Fatalf("C08: cached lookup issued during RemoveQ4: read through the held accessor: %v", readErr)
+		}
+		// quiescent: the parity file is gone, the block is still there and fully readable
+		if has, err := st.HasQ4ByHash(ctx, sq.Roots.Hash()); err != nil || has {
+			t.Fatalf("C08: final content: after RemoveQ4(%d) returned the parity file must be gone, observed HasQ4ByHash=%v, %v", height, has, err)
+		}
+		acc, err := cs.GetByHeight(ctx, height)
+		if err != nil {
+			t.Fatalf("C08: final content: RemoveQ4 must keep the block, observed cached GetByHeight(%d) = %v", height, err)
+		}
+		for _, rd := range c08FinalReads(height) {
+			if err := c08CheckRead(ctx, acc, sq, rd); err != nil {
+				t.Fatalf("C08: final content after RemoveQ4(%d): %v", height, err)
+			}
+		}
+		_ = acc.Close()
+		// no reader is left: no descriptor may point at the removed parity file
+		for _, fd := range c08OpenIn(dir) {
+			if strings.HasSuffix(fd, " (deleted)") || strings.Contains(fd, ".q4") {
+				t.Fatalf("C08: released files: after RemoveQ4(%d) returned and every reader closed, the process still holds %q (history: PutODSQ4 < { RemoveQ4 || cached Get + parity read }; %s)",
+					height, fd, desc)
+			}
+		}
+		if err := st.RemoveODSQ4(ctx, height, sq.Roots.Hash()); err != nil {
+			t.Fatalf("C08: RemoveODSQ4(%d) at the end: %v", height, err)
+		}
+		if left := c08OpenIn(dir); len(left) > 0 {
+			t.Fatalf("C08: released files: after the block was removed the process still holds %v (%s)", left, desc)
 		}
 	})
 }
